@@ -339,11 +339,13 @@ def consistent(text, v):
     where only zeros of the canonical text may be missing (no leading zeros, omitted time parts, short fraction)."""
     if not isinstance(text, str) or not isinstance(v, list) or not valid7(v):
         return False
+    if v in iso_readings(text):           # includes "any single character between date and time"
+        return True
     body = text.rstrip()
     if body[-1:] in ("Z", "z"):
         body = body[:-1].rstrip()
     else:
-        m = re.search(r"[+-]\d{2}(?::?\d{2}(?::?\d{2}(?:\.\d+)?)?)?$", body)
+        m = re.search(r"[+-]\d{2}(?::?\d{2})?(?::?\d{2})?(?:[.,]\d+)?$", body)
         if m and (":" in body[:m.start()] or len(body[:m.start()].strip()) >= 13):      # an offset needs a time before it
             body = body[:m.start()].rstrip()
     m = re.search(r"[.,](\d+)$", body)
